@@ -347,8 +347,9 @@ def _local_cliquishness_4thorder(
                             node3 = neighbors[l]
                             if A[node2, node3] == 1 and A[node3, node1] == 1:
                                 counter += 1
+            # (the product of degrees does not fit into NODE_t for hubs)
             local_cliquishness[i] = counter /\
-                (degree_i * (degree_i - 1) * (degree_i - 2))
+                (<double> degree_i * (degree_i - 1) * (degree_i - 2))
     return local_cliquishness
 
 
@@ -390,8 +391,10 @@ def _local_cliquishness_5thorder(
                                         A[node2, node4] == 1 and
                                         A[node3, node4] == 1):
                                         counter += 1
+            # (the product of degrees does not fit into NODE_t for hubs)
             local_cliquishness[i] = counter /\
-                (degree_i * (degree_i - 1) * (degree_i - 2) * (degree_i -3))
+                (<double> degree_i * (degree_i - 1) * (degree_i - 2)
+                 * (degree_i - 3))
     return local_cliquishness
 
 
